@@ -237,7 +237,7 @@ PROPS = {
         "assumptions": ["clone()/deep_clone() give independent engines (decided separately by C14)",
                         "a failing consume_token leaves the original (un-cloned) engine untouched because it is applied to a clone"],
         "quick": {"runs": [q(deadline=45)], "floor": {"states": 1500, "distinct_nontrivial": 300, "validate_seq_checks": 200}},
-        "thorough": {"runs": [q(deadline=1500, watchdog=3600), dict(q(deadline=900, watchdog=3600), variant="chk")],
+        "thorough": {"runs": [q(deadline=600, watchdog=3600), dict(q(deadline=360, watchdog=3600), variant="chk")],
                      "floor": {"states": 20000, "distinct_nontrivial": 3000}},
     },
     "C11": {
@@ -251,7 +251,7 @@ PROPS = {
                 "mask of >=2 and <|V| tokens; distinct by (grammar, history, vocabulary).",
         "assumptions": ["a freshly built engine replaying the same tokens is the reference for 'no trace left'"],
         "quick": {"runs": [q(deadline=45)], "floor": {"states": 800, "distinct_nontrivial": 100, "bias_cache_hits_observed": 200}},
-        "thorough": {"runs": [q(deadline=1200, watchdog=3600)], "floor": {"states": 15000, "distinct_nontrivial": 2000}},
+        "thorough": {"runs": [q(deadline=480, watchdog=3600)], "floor": {"states": 15000, "distinct_nontrivial": 2000}},
     },
     "C12": {
         "eval_counter": "observable_checks",
@@ -262,7 +262,7 @@ PROPS = {
                 "Non-trivial = rollback of >=2 tokens, or out of a stopped state, or over an EOS; distinct by (grammar, program, vocabulary).",
         "assumptions": ["fresh replay engine is the reference for 'never saw those k tokens'"],
         "quick": {"runs": [q(deadline=45)], "floor": {"rollbacks": 800, "distinct_nontrivial": 200, "lockstep_masks": 1500}},
-        "thorough": {"runs": [q(deadline=1200, watchdog=3600), dict(q(deadline=600, watchdog=3600), variant="chk")],
+        "thorough": {"runs": [q(deadline=480, watchdog=3600), dict(q(deadline=240, watchdog=3600), variant="chk")],
                      "floor": {"rollbacks": 15000, "distinct_nontrivial": 3000}},
     },
     "C10": {
@@ -275,7 +275,7 @@ PROPS = {
                 "last_step_stats().slices_applied > 0 on the sliced engine; distinct by (grammar, history, vocabulary, slice list).",
         "assumptions": ["ParserFactory::new(.., []) is the unsliced reference path"],
         "quick": {"runs": [q(deadline=45)], "floor": {"states": 3000, "distinct_nontrivial": 300, "slices_applied": 300}},
-        "thorough": {"runs": [q(deadline=1200, watchdog=3600)], "floor": {"states": 50000, "distinct_nontrivial": 5000}},
+        "thorough": {"runs": [q(deadline=480, watchdog=3600)], "floor": {"states": 50000, "distinct_nontrivial": 5000}},
     },
     "C13": {
         "eval_counter": "forced_bytes_checked",
@@ -291,7 +291,7 @@ PROPS = {
                 "prompt that was actually re-tokenised.",
         "assumptions": ["the single-byte no-forcing engine is the reference for 'only byte the grammar allows' (its own masks are decided by C01/C04/C05)"],
         "quick": {"runs": [q(deadline=45)], "floor": {"states_with_forced_bytes": 500, "distinct_nontrivial": 200, "states_with_ff_tokens": 100, "prompt_cases": 200, "constraint_commits": 500}},
-        "thorough": {"runs": [q(deadline=1200, watchdog=3600)], "floor": {"states_with_forced_bytes": 10000, "distinct_nontrivial": 3000}},
+        "thorough": {"runs": [q(deadline=480, watchdog=3600)], "floor": {"states_with_forced_bytes": 10000, "distinct_nontrivial": 3000}},
     },
     "C02": {
         "eval_counter": "token_checks",
@@ -304,7 +304,7 @@ PROPS = {
                 "Non-trivial = state in which at least one allowed multi-byte token was compared; distinct by (grammar, bytes, vocabulary).",
         "assumptions": ["special tokens are excluded (compared within one vocabulary only, see C19)"],
         "quick": {"runs": [q(deadline=45)], "floor": {"states": 3000, "distinct_nontrivial": 800, "resegmentations": 500}},
-        "thorough": {"runs": [q(deadline=1200, watchdog=3600)], "floor": {"states": 50000, "distinct_nontrivial": 10000}},
+        "thorough": {"runs": [q(deadline=480, watchdog=3600)], "floor": {"states": 50000, "distinct_nontrivial": 10000}},
     },
     "C04": {
         "eval_counter": "mask_bytes_compared",
@@ -321,7 +321,7 @@ PROPS = {
         "assumptions": ["ref_dfa is the oracle; it is itself cross-checked against the `regex` crate on the plain fragment (./check selftest)",
                         "byte 0xFF (special-token marker) is excluded from comparisons"],
         "quick": {"runs": [q(deadline=45)], "floor": {"cases": 800, "distinct_nontrivial": 300, "dfs_nodes": 50000, "vloop_token_checks": 200000}},
-        "thorough": {"runs": [q(deadline=1500, watchdog=3600)], "floor": {"cases": 15000, "distinct_nontrivial": 5000}},
+        "thorough": {"runs": [q(deadline=600, watchdog=3600)], "floor": {"cases": 15000, "distinct_nontrivial": 5000}},
     },
     "C05": {
         "eval_counter": "mask_bytes_compared",
@@ -332,13 +332,13 @@ PROPS = {
                 "at-least-once, bounded counters, pick m..n, a*b* with length bound). Oracle = byte-level Earley recogniser on the harness's "
                 "own plain-BNF copy (EBNF lowered, parametric rules expanded over reachable (rule, value) pairs). DFS over ALL byte strings "
                 "over the grammar's alphabet (<=6 bytes) up to length 6 (quick) / 8 (thorough): full 255-byte single-byte mask == reference "
-                "next-byte set, is_accepting == derivability; plus long sentences byte by byte and V-loops over a grammar-specific "
+                "next-byte set, is_accepting == derivability; plus long run-preferring walks (<=70 bytes, wide {m,n} repetitions reach their ends) with the full mask compared at every prefix, long sentences byte by byte and V-loops over a grammar-specific "
                 "multi-byte vocabulary (mask[t] == prefix+bytes(t) viable). evaluations = (state, next byte) comparisons in the DFS. "
                 "Non-trivial = grammar whose DFS visited >=8 viable prefixes and >=1 complete string; distinct by grammar text.",
         "assumptions": ["ref_earley is the oracle (textbook algorithm, nullable handling by Aycock-Horspool)",
                         "grammars with unproductive reachable symbols are tagged `unproductive` and judged separately"],
         "quick": {"runs": [q(deadline=45)], "floor": {"cases": 800, "distinct_nontrivial": 300, "dfs_nodes": 50000, "vloop_token_checks": 50000}},
-        "thorough": {"runs": [q(deadline=1500, watchdog=3600)], "floor": {"cases": 15000, "distinct_nontrivial": 5000}},
+        "thorough": {"runs": [q(deadline=600, watchdog=3600)], "floor": {"cases": 15000, "distinct_nontrivial": 5000}},
     },
     "C09": {
         "eval_counter": "count_probes",
@@ -352,7 +352,7 @@ PROPS = {
                 "accepted. evaluations = (grammar, count) probes. Non-trivial = grammar with n>=1; distinct by (form, m, n).",
         "assumptions": ["single-byte vocabulary: the mask is the next-byte set"],
         "quick": {"runs": [q(deadline=60)], "floor": {"grammars": 3000, "distinct_nontrivial": 2500, "count_probes": 40000}},
-        "thorough": {"runs": [q(deadline=1500, watchdog=3600)], "floor": {"grammars": 20000, "distinct_nontrivial": 15000}},
+        "thorough": {"runs": [q(deadline=600, watchdog=3600)], "floor": {"grammars": 20000, "distinct_nontrivial": 15000}},
     },
     "C08": {
         "eval_counter": "literal_probes",
@@ -368,7 +368,7 @@ PROPS = {
                 "a bound and at least one literal inside; distinct by schema text.",
         "assumptions": ["exact decimal arithmetic of the harness (ref_json::Dec, i128) is the oracle; bounds and literals are compared as texts, never as floats"],
         "quick": {"runs": [q(deadline=60)], "floor": {"schemas": 20000, "distinct_nontrivial": 8000, "literal_probes": 500000}},
-        "thorough": {"runs": [q(deadline=2400, watchdog=5400)], "floor": {"schemas": 300000, "distinct_nontrivial": 100000}},
+        "thorough": {"runs": [q(deadline=960, watchdog=5400)], "floor": {"schemas": 300000, "distinct_nontrivial": 100000}},
     },
     "C06": {
         "eval_counter": "outputs_judged",
@@ -385,7 +385,7 @@ PROPS = {
         "assumptions": ["ref_json validator decides numeric keywords and duplicate keys; jsonschema 0.29 is the second opinion elsewhere",
                         "hostname total-length limit is not asserted by the oracle"],
         "quick": {"runs": [q(deadline=50)], "floor": {"schemas": 1200, "outputs_judged": 8000, "distinct_nontrivial": 1500, "negative_probes_invalid": 1000}},
-        "thorough": {"runs": [q(deadline=1800, watchdog=5400)], "floor": {"schemas": 30000, "outputs_judged": 300000}},
+        "thorough": {"runs": [q(deadline=720, watchdog=5400)], "floor": {"schemas": 30000, "outputs_judged": 300000}},
     },
     "C07": {
         "eval_counter": "tokens_fed",
@@ -400,7 +400,7 @@ PROPS = {
                 "evaluations = tokens fed. Non-trivial = accepted instance of >=4 tokens; distinct by (schema, text, vocabulary).",
         "assumptions": ["instances are only used when the harness validator and the jsonschema crate both accept them"],
         "quick": {"runs": [q(deadline=50)], "floor": {"schemas": 1500, "instances": 6000, "distinct_nontrivial": 2500}},
-        "thorough": {"runs": [q(deadline=1800, watchdog=5400)], "floor": {"schemas": 30000, "instances": 150000}},
+        "thorough": {"runs": [q(deadline=720, watchdog=5400)], "floor": {"schemas": 30000, "instances": 150000}},
     },
     "C03": {
         "eval_counter": "states",
@@ -416,7 +416,7 @@ PROPS = {
                 "monitored. Non-trivial = walk of >=3 tokens; distinct by (grammar, history, vocabulary).",
         "assumptions": ["TokenParser API used directly so that the precise StopReason is visible"],
         "quick": {"runs": [q(deadline=50)], "floor": {"cases": 2500, "states": 30000, "distinct_nontrivial": 1500, "reference_liveness_checks": 5000}},
-        "thorough": {"runs": [q(deadline=1800, watchdog=5400)], "floor": {"cases": 50000, "states": 600000}},
+        "thorough": {"runs": [q(deadline=720, watchdog=5400)], "floor": {"cases": 50000, "states": 600000}},
     },
     "C16": {
         "post": post_c16,
@@ -438,7 +438,7 @@ PROPS = {
                 "size >=31 ending non-empty / adapter document; distinct by content hash.",
         "assumptions": ["asan / miri variants run the same scenarios (toktrie-only part under Miri)"],
         "quick": {"runs": [q(deadline=24), dict(q(deadline=15), variant="chk")], "floor": {"cases": 3000, "distinct_nontrivial": 1500, "add_bias_walks": 5000, "svob_checks": 10000, "tokenize_roundtrips": 1000, "miri.cases": 8}},
-        "thorough": {"runs": [q(deadline=900, watchdog=3600), dict(q(deadline=600, watchdog=3600), variant="chk"), dict(q(deadline=600, watchdog=3600), variant="asan")],
+        "thorough": {"runs": [q(deadline=360, watchdog=3600), dict(q(deadline=240, watchdog=3600), variant="chk"), dict(q(deadline=240, watchdog=3600), variant="asan")],
                      "floor": {"cases": 100000, "distinct_nontrivial": 30000}},
     },
     "C17": {
@@ -458,7 +458,7 @@ PROPS = {
         "assumptions": ["the C functions are called from Rust (no C compiler in the loop); Miri cannot cross a real C boundary"],
         "quick": {"runs": [q(deadline=30), dict(q(deadline=40, watchdog=900), variant="asan", env=ASAN_ENV)],
                   "floor": {"cases": 500, "mask_comparisons": 3000, "par_buffers_checked": 5000, "distinct_nontrivial": 300}},
-        "thorough": {"runs": [q(deadline=900, watchdog=3600), dict(q(deadline=1200, watchdog=3600), variant="asan", env=ASAN_ENV)],
+        "thorough": {"runs": [q(deadline=360, watchdog=3600), dict(q(deadline=480, watchdog=3600), variant="asan", env=ASAN_ENV)],
                      "floor": {"cases": 20000, "mask_comparisons": 200000}},
     },
     "C14": {
@@ -477,7 +477,7 @@ PROPS = {
         "assumptions": ["API calls on shallow clones are atomic w.r.t. the shared lexer (one mutex), so single-thread interleavings of whole calls cover the reachable schedules at call granularity",
                         "thorough adds a ThreadSanitizer build (-Zsanitizer=thread -Zbuild-std) of the thread workload"],
         "quick": {"runs": [q(deadline=45)], "floor": {"enum_cases": 100, "interleavings_executed": 10000, "thread_cases": 100, "threaded_op_checks": 5000, "lock_owner_switches": 200, "par_masks_checked": 500, "distinct_nontrivial": 150}},
-        "thorough": {"runs": [q(deadline=1200, watchdog=3600), dict(q(deadline=600, watchdog=5400), variant="tsan", args=["--mode", "threads"], env={"TSAN_OPTIONS": "halt_on_error=1:exitcode=66"})],
+        "thorough": {"runs": [q(deadline=480, watchdog=3600), dict(q(deadline=240, watchdog=5400), variant="tsan", args=["--mode", "threads"], env={"TSAN_OPTIONS": "halt_on_error=1:exitcode=66"})],
                      "floor": {"enum_cases": 3000, "thread_cases": 3000}},
     },
     "C15": {
@@ -494,12 +494,12 @@ PROPS = {
                 "Non-trivial = optimisation that removed >=1 rule-bearing symbol on a grammar with >=2 sequences; distinct by grammar.",
         "assumptions": ["lexeme indices are unchanged by optimisation (same LexerSpec), so terminals are compared by index"],
         "quick": {"runs": [q(deadline=45)], "floor": {"optimisations_observed": 1500, "optimisations_that_removed_symbols": 500, "distinct_nontrivial": 300, "sequences_compared": 20000}},
-        "thorough": {"runs": [q(deadline=1200, watchdog=3600)], "floor": {"optimisations_observed": 30000}},
+        "thorough": {"runs": [q(deadline=480, watchdog=3600)], "floor": {"optimisations_observed": 30000}},
     },
     "C18": {
         "eval_counter": "stop_decisions_checked",
         "case_counter": "matcher_cases",
-        "rule": "four workloads by idx mod 4. Matcher: walk through the masks; after every commit the stop status is compared with a "
+        "rule": "four workloads by idx mod 4 (one case in four on a vocabulary with 2-3 EOS ids). Matcher: walk through the masks; after every commit the stop status is compared with a "
                 "reference TokenParser driven WITHOUT check_stop (stop due <=> accepting and no non-EOS token in its mask), EOS commit in an "
                 "accepting state must stop with EndOfSentence; at the stop the decoded text must be a complete string for an independent "
                 "single-byte engine, no token is accepted any more, compute_mask fails and compute_mask_or_eos is exactly {EOS}; illegal "
@@ -514,7 +514,7 @@ PROPS = {
                 "spec, history).",
         "assumptions": ["cases where several stop matches of different lengths end at the same earliest position are skipped (ambiguous exclusion length)"],
         "quick": {"runs": [q(deadline=45)], "floor": {"matcher_cases": 500, "constraint_cases": 500, "stop_cases": 1000, "stopped_runs": 800, "illegal_calls": 300, "distinct_nontrivial": 600}},
-        "thorough": {"runs": [q(deadline=1200, watchdog=3600)], "floor": {"matcher_cases": 10000, "stop_cases": 20000}},
+        "thorough": {"runs": [q(deadline=480, watchdog=3600)], "floor": {"matcher_cases": 10000, "stop_cases": 20000}},
     },
     "C19": {
         "eval_counter": "special_ids_checked",
@@ -524,7 +524,7 @@ PROPS = {
                 "specials are named <a>, <b>, <ab>, <|tool|>, <think>, </think>, <\"x\">, <1>, <x>, <|end|>: at every state of a walk no "
                 "special id may be in the mask (EOS only when accepting), the bare marker token never, and validate/commit on clones must "
                 "refuse specials. (b) grammars generated from a harness-side model `\"q\" A \"w\" B \"k\" | ...` with A,B drawn from <name>, "
-                "<[id]>, <[a-b,...]>, <[^...]>, <[*]> (ids near 0, 31/32/33, 255/256, vocab-2, vocab-1): at each token position the mask "
+                "<[id]>, <[a-b,...]>, <[^...]>, <[*]> (ids near 0, 31/32/33, 255/256, vocab-2, vocab-1; later list entries derived from earlier ones: adjacent single id, adjacent range, overlap extending by one, nested, duplicate, shuffled): at each token position the mask "
                 "must equal exactly the union of the sets denoted by the alternatives still consistent with the history (all ids compared), "
                 "at text positions exactly the literal's byte token, and validate/commit must agree on probes at the range ends. "
                 "(c) tokenisation: plain text spelling a special's name yields no special id and round-trips; \\xFF<name> and \\xFF[id] "
@@ -532,7 +532,7 @@ PROPS = {
                 "Non-trivial = walk of >=2 tokens / token-reference grammar fully traversed; distinct by (grammar, history, vocabulary).",
         "assumptions": ["HF added-token matching inside plain text is adapter policy (excluded by the property text) and is not asserted"],
         "quick": {"runs": [q(deadline=45)], "floor": {"text_cases": 800, "ref_cases": 600, "positions_checked": 3000, "tokenize_checks": 300, "distinct_nontrivial": 900}},
-        "thorough": {"runs": [q(deadline=1200, watchdog=3600)], "floor": {"text_cases": 15000, "ref_cases": 10000}},
+        "thorough": {"runs": [q(deadline=480, watchdog=3600)], "floor": {"text_cases": 15000, "ref_cases": 10000}},
     },
     "C20": {
         "runner": c20_runner,
@@ -542,9 +542,9 @@ PROPS = {
         "rule": "case = hostile input of one of ~30 classes (random bytes; random Lark token soup; byte-level and JSON-tree mutations of the "
                 "corpus; nesting to depth 10..100000 of ( ) [ ] ~ regex groups allOf items; minItems/maxItems/minLength/maxLength/"
                 "min/maxProperties and regex / Lark repeat counts up to 2^32 and 2^64-1; nested {n}{n}; multipleOf pairs whose lcm "
-                "overflows u32; numeric extremes; 1 MB literal; 20000 properties; $ref cycles and dangling refs; parametric conditions nested "
+                "overflows u32; numeric extremes; 1 MB literal (100 kB in the quick tier); 20000 properties; raw token-id ranges whose ends sit at 0, 31/32, 255/256, vocab-2 .. vocab+1, 2^31, 2^32-1, 2^32; $ref cycles and dangling refs; parametric conditions nested "
                 "3000 deep and bit indices beyond 64; random slice lists; degenerate vocabularies), built under default or very tight "
-                "limits, followed by 40 random API calls (mask, commit from the mask, arbitrary token ids incl. u32::MAX, validate, "
+                "limits, followed by 40 API calls (half of the cases start with 4-15 legal mask+commit steps so that deeper positions are reached; then random: mask, commit from the mask, arbitrary token ids incl. u32::MAX, validate, "
                 "rollback, ff tokens). Each case runs on a 2 MiB-stack thread in a worker process with RLIMIT_AS 8 GiB and a 240 s "
                 "per-case RLIMIT_CPU budget (40 s in the quick tier); a BEGIN/END journal attributes a dead worker to its case and the worker is restarted after "
                 "it. Oracles: death by signal / abort / stack overflow / allocation failure => violation; panic during a LEGAL call on a "
@@ -553,7 +553,7 @@ PROPS = {
                 "violation. evaluations = cases. Non-trivial = case whose engine was built and driven; distinct by input.",
         "assumptions": ["wall-clock watchdog => inconclusive; CPU budget via RLIMIT_CPU (SIGXCPU => violation 'loops without bound')"],
         "quick": {"runs": [q(deadline=60, watchdog=900), dict(q(deadline=60, watchdog=900), variant="chk")], "floor": {"cases": 500, "engines_built": 150, "distinct_nontrivial": 100}},
-        "thorough": {"runs": [q(deadline=1500, watchdog=5400), dict(q(deadline=1500, watchdog=5400), variant="chk"), dict(q(deadline=900, watchdog=5400), variant="asan", env=ASAN_ENV)],
+        "thorough": {"runs": [q(deadline=600, watchdog=5400), dict(q(deadline=600, watchdog=5400), variant="chk"), dict(q(deadline=360, watchdog=5400), variant="asan", env=ASAN_ENV)],
                      "floor": {"cases": 50000}},
     },
 }
